@@ -171,3 +171,43 @@ def run_string_enum(prog, rep, enum, to_q, from_q, what):
         rule.check(outs2 == {('ret', ('e', e))}, '%s|%s|roundtrip' % (what, e.split('::')[-1]), rep.where(from_f), from_f.q,
                    '%s -> "%s" -> %s' % (e.split('::')[-1], s, e.split('::')[-1]), '%s is written as "%s", which reads back as %r' % (e.split('::')[-1], s, outs2))
     return rule
+
+
+def run_dim_open(prog, rep):
+    """the stored dimension kind is dispatched to the class whose dimensionType() is that kind, and that class stores its own kind"""
+    rule = rep.rule('R-CODEC-DIMOPEN', 'openDimensionHDF5 builds, for each stored DimensionType, the class that reports (and stores) that type', floor=4)
+    op = prog.fn('nix::hdf5::openDimensionHDF5')
+    sw, tab, after = enum_switch_table(op)
+    # the switch operand derives from dimensionTypeFromStr(attribute "dimension_type")
+    fl = Flow(Sem(prog), op)
+    names = fl.call_names(sw.c[0])
+    rule.check('dimensionTypeFromStr' in names and 'getAttr' in names, 'openDimensionHDF5|operand', rep.where(sw), op.q,
+               'dispatch operand is dimensionTypeFromStr(getAttr("dimension_type"))', 'dispatch operand derives from %s' % sorted(names))
+    st = prog.fn('nix::hdf5::DimensionHDF5::setType')
+    sn = [c for c in st.calls(name='setAttr')]
+    okset = bool(sn) and 'dimensionTypeToStr' in Flow(Sem(prog), st).call_names(real_args(sn[0])[1]) and 'dimensionType' in Flow(Sem(prog), st).call_names(real_args(sn[0])[1])
+    rule.check(okset, 'DimensionHDF5::setType|stores-own-kind', rep.where(st), st.q, 'setType stores dimensionTypeToStr(dimensionType())', 'setType does not store the encoder of the virtual dimensionType()')
+    for e in enumerators(prog, 'nix::DimensionType'):
+        stmts = tab.get(e, tab.get('default')) or []
+        made = [c for s in stmts if s is not None for c in s.walk() if c.k == 'call' and (c.callee or {}).get('name') == 'make_shared']
+        cls = None
+        for m in made:
+            mm = re.search(r'shared_ptr<(?:std::_NonArray<)?([\w:]+)>', m.t or '')
+            if mm:
+                cls = mm.group(1)
+        key = 'openDimensionHDF5|%s' % e.split('::')[-1]
+        if cls is None:
+            rule.bad(key, rep.where(sw), op.q, 'no object is built for stored kind %s' % e)
+            continue
+        q = cls if cls.startswith('nix::') else 'nix::hdf5::' + cls
+        dts = [f for f in prog.methods_of(q) if f.name == 'dimensionType' and f.body is not None]
+        ret = None
+        if dts:
+            r = first_return(dts[0].body.c)
+            if r is not None:
+                t = term(unwrap(r.c[0]))
+                ret = t[1] if t[0] == 'e' else None
+        ctor_sets = any(c.callee.get('name') == 'setType' for f in prog.methods_of(q) if f.kind == 'ctor' and f.body is not None for c in f.calls())
+        rule.check(ret == e and ctor_sets, key, rep.where(sw), op.q, '%s -> %s, whose dimensionType() is %s and whose constructors call setType()' % (e.split('::')[-1], cls, e.split('::')[-1]),
+                   'stored kind %s opens %s whose dimensionType() returns %s (constructors call setType: %s)' % (e, cls, ret, ctor_sets))
+    return rule
